@@ -28,7 +28,7 @@ M = [  # (name, file, old, new, property, --only, substring expected in a VIOLAT
     ('bootstrap-ignores-liveness', 'mystic/abstract_solver.py', '(ExtraArgs is None or ExtraArgs is _args) and self._live:', '(ExtraArgs is None or ExtraArgs is _args):', 'C02', 'bootstrap', 'stored-objective-reused-only-while-live'),
     ('powell-gen0-unconstrained', 'mystic/scipy_optimize.py', "            x = asarray(constraints(x), dtype='float64')\n            N = len(x)", '            N = len(x)', 'C01', 'Powell._Step/generation=0', 'constrained-guess'),
     ('powell-linesearch-without-cap', 'mystic/scipy_optimize.py', '                    fval, x, direc1 = _linesearch_powell(cost, x, direc1, tol=xtol*100, maxiter=imax)', '                    fval, x, direc1 = _linesearch_powell(cost, x, direc1, tol=xtol*100)', 'C08', 'generation>1', 'every-line-search'),
-    ('powell-bookkeeping-keeps-old-fx', 'mystic/scipy_optimize.py', '            fx = fval', '            fx = fx', 'C08', 'generation>1', 'bookkeeping'),
+    ('powell-bookkeeping-keeps-old-fx', 'mystic/scipy_optimize.py', '            fx = fval', '            fx = fx', 'C08', 'generation=1', 'bookkeeping'),
     ('nm-initial-simplex-offset', 'mystic/scipy_optimize.py', '                y[k] = val[k]', '                y[k] = val[0]', 'C08', 'generation=1', 'each-new-vertex'),
     ('nm-simplex-outside-ranges', 'mystic/scipy_optimize.py', '        val[val>hi] = hi[val>hi]', '        val[val>hi] = hi[val>hi] + 1', 'C02', 'setSimplex', 'offsets-inside-the-ranges'),
     ('deepcopy-stays-live', 'mystic/abstract_solver.py', '        result._live = False\n        return result', '        return result', 'C06', 'deepcopy', 'rebuilds-its-objective'),
@@ -54,8 +54,8 @@ M = [  # (name, file, old, new, property, --only, substring expected in a VIOLAT
     ('ensemble-terminated-any-member', 'mystic/abstract_ensemble_solver.py', '            if False in end: return no', '            if not any(end): return no', 'C05', 'ensemble.Terminated', 'not-terminated-while-a-member-runs'),
     ('ensemble-total-from-best', 'mystic/ensemble.py', '    all_fcalls = solver._total_evals', '    all_fcalls = solver.evaluations', 'C09', 'C09/lattice', 'total-evaluation-count'),
     ('buckshot-one-point-short', 'mystic/ensemble.py', '        return samplepts(lower,upper,npts, self._dist)', '        return samplepts(lower,upper,npts-1, self._dist)', 'C09', 'Buckshot', 'exactly-as-many-members'),
-    ('timelimits-reset-noop', 'mystic/termination.py', '        start[0] = timer()\n    delta', '        pass\n    delta', 'C10', 'TimeLimits', 'satisfied-iff-elapsed'),
-    ('stop-dump-before-finalize', 'mystic/abstract_solver.py', "            if self.Terminated(): # then cleanup/finalize\n                self.Finalize()\n", "", 'C06', 'STOP', 'finalized'),
+    ('timelimits-reset-noop', 'mystic/termination.py', '        start[0] = timer()\n    delta', '        pass\n    delta', 'C10', 'TimeLimits', 'one-clock-reading'),
+    ('stop-without-finalize', 'mystic/abstract_solver.py', "            if self.Terminated(): # then cleanup/finalize\n                self.Finalize()\n", "", 'C05', 'C05/Step', 'stopped-solver-is-finalized'),
     ('monitor-slice-reversed', 'mystic/monitors.py', '            m._y = self._y[y]', '            m._y = self._x[y]', 'C20', 'Monitor.slice', 'holds-exactly-the-sliced-records'),
     ('or_-aliased-fixed-point-test', 'mystic/constraints.py', '                ci = next(_constraints)(x[-n][:])', '                ci = next(_constraints)(x[-n])', 'C17', 'or_/in-place', 'fixed-point-of-some-member'),
 ]
